@@ -1230,6 +1230,9 @@ func main() {
 		if err != nil {
 			lib.Fatal("driver (spec): %v", err)
 		}
+		// disagreements of this section: those the specification condemns first, so that the cap of 50
+		// examined disagreements never hides a violation behind differences in the error class
+		var found []lib.Disagreement
 		for i, c := range cases {
 			g := strings.Join(goOuts[i], " ; ")
 			for _, o := range goOuts[i] {
@@ -1247,7 +1250,7 @@ func main() {
 				}
 			}
 			if strings.Contains(g, "panic") {
-				res.AddDisagreement(lib.Disagreement{Kind: "crash", Input: describe(c), Go: g, Model: ans[i], SpecVerdict: "violates",
+				found = append(found, lib.Disagreement{Kind: "crash", Input: describe(c), Go: g, Model: ans[i], SpecVerdict: "violates",
 					What: "the range code panicked", Replay: c})
 				continue
 			}
@@ -1255,23 +1258,25 @@ func main() {
 				verdict, why = "", "go outcome could not be interpreted: "+g
 			}
 			if g != ans[i] {
-				if len(res.Disagreements) >= 50 {
-					res.Count("disagreements_not_examined", 1)
-					continue
-				}
-				res.AddDisagreement(lib.Disagreement{Kind: "correspondence", Input: describe(c), Go: g, Model: ans[i], SpecVerdict: verdict,
+				found = append(found, lib.Disagreement{Kind: "correspondence", Input: describe(c), Go: g, Model: ans[i], SpecVerdict: verdict,
 					What: "range restriction: Go differs from the model (" + sec.name + "); spec on the Go outcome: " + verdict + " " + why, Replay: c})
 			} else if verdict != "holds" {
-				if len(res.Disagreements) >= 50 {
-					res.Count("disagreements_not_examined", 1)
-					continue
-				}
-				res.AddDisagreement(lib.Disagreement{Kind: "spec", Input: describe(c), Go: g, Model: ans[i], SpecVerdict: "violates",
+				found = append(found, lib.Disagreement{Kind: "spec", Input: describe(c), Go: g, Model: ans[i], SpecVerdict: "violates",
 					What: "range restriction: the outcome violates the specification (" + sec.name + "): " + why, Replay: c})
 			}
 			if i%(len(cases)/2+1) == 1 {
 				res.AddSample(map[string]any{"section": sec.name, "case": describe(c), "go": g, "model": ans[i]})
 			}
+		}
+		sort.SliceStable(found, func(a, b int) bool {
+			return found[a].SpecVerdict == "violates" && found[b].SpecVerdict != "violates"
+		})
+		for _, dd := range found {
+			if len(res.Disagreements) >= 50 {
+				res.Count("disagreements_not_examined", 1)
+				continue
+			}
+			res.AddDisagreement(dd)
 		}
 		res.Distribution["cases_"+sec.name] = len(cases)
 		evals += int64(len(cases))
